@@ -45,6 +45,53 @@ struct ForeignBlock {
     clone_calls: AtomicU32,
     drop_calls: AtomicU32,
     underflow: AtomicU32,
+    /// "handle table" policy: every handle has its own record (its own instance pointer, all of
+    /// them dereference to the same value); a record is released exactly once
+    nodes: Vec<Node>,
+    next_node: AtomicU32,
+    stale: AtomicU32,
+}
+
+#[repr(C)]
+struct Node {
+    payload: std::mem::ManuallyDrop<P>, // at offset 0; a bit copy, never dropped
+    block: *const ForeignBlock,
+    live: AtomicU32,
+}
+unsafe impl Send for Node {}
+unsafe impl Sync for Node {}
+
+const NODES: usize = 256;
+
+unsafe extern "C" fn foreign_clone_ph(p: *const c_void) -> *const c_void {
+    let n = &*(p as *const Node);
+    let b = &*n.block;
+    b.clone_calls.fetch_add(1, Ordering::SeqCst);
+    if n.live.load(Ordering::SeqCst) == 0 {
+        b.stale.fetch_add(1, Ordering::SeqCst);
+    }
+    b.count.fetch_add(1, Ordering::SeqCst);
+    let i = b.next_node.fetch_add(1, Ordering::SeqCst) as usize % NODES;
+    let m = &b.nodes[i];
+    m.live.store(1, Ordering::SeqCst);
+    m as *const Node as *const c_void
+}
+
+unsafe extern "C" fn foreign_drop_ph(p: *const c_void) {
+    let n = &*(p as *const Node);
+    let b = &*n.block;
+    b.drop_calls.fetch_add(1, Ordering::SeqCst);
+    if n.live.swap(0, Ordering::SeqCst) == 0 {
+        // this handle's record was released before
+        b.stale.fetch_add(1, Ordering::SeqCst);
+    }
+    let prev = b.count.fetch_sub(1, Ordering::SeqCst);
+    if prev <= 0 {
+        b.underflow.fetch_add(1, Ordering::SeqCst);
+    } else if prev == 1 {
+        let bm = n.block as *mut ForeignBlock;
+        std::mem::ManuallyDrop::drop(&mut (*bm).payload);
+    }
 }
 
 unsafe extern "C" fn foreign_clone(p: *const c_void) -> *const c_void {
@@ -145,16 +192,29 @@ impl State {
         }
     }
     fn new_foreign(&self, id: u32) -> ArcView {
-        let b = Box::new(ForeignBlock {
+        let per_handle = id % 2 == 1;
+        let mut b = Box::new(ForeignBlock {
             payload: std::mem::ManuallyDrop::new(mk_payload(self, id)),
             count: AtomicI64::new(1),
             clone_calls: AtomicU32::new(0),
             drop_calls: AtomicU32::new(0),
             underflow: AtomicU32::new(0),
+            nodes: Vec::new(),
+            next_node: AtomicU32::new(1),
+            stale: AtomicU32::new(0),
         });
-        let p = &*b as *const ForeignBlock as *const c_void;
+        let bp = &*b as *const ForeignBlock;
+        let view = if per_handle {
+            let nodes: Vec<Node> = (0..NODES)
+                .map(|i| Node { payload: unsafe { std::ptr::read(&b.payload) }, block: bp, live: AtomicU32::new((i == 0) as u32) })
+                .collect();
+            b.nodes = nodes;
+            ArcView { instance: &b.nodes[0] as *const Node as *const c_void, clone_fn: Some(foreign_clone_ph), drop_fn: Some(foreign_drop_ph) }
+        } else {
+            ArcView { instance: bp as *const c_void, clone_fn: Some(foreign_clone), drop_fn: Some(foreign_drop) }
+        };
         self.allocs.lock().unwrap().insert(id, AllocRec { kind: AllocKind::Foreign(b), model: 1 });
-        ArcView { instance: p, clone_fn: Some(foreign_clone), drop_fn: Some(foreign_drop) }
+        view
     }
 }
 
@@ -487,6 +547,11 @@ fn check_invariants(st: &State, when: &str) -> VResult {
                 let c = b.count.load(Ordering::SeqCst);
                 vcheck!(b.underflow.load(Ordering::SeqCst) == 0, "arc.foreign_books", "foreign", "{}: foreign drop_fn called on allocation {} with no handle left", when, id);
                 vcheck!(c == a.model, "arc.foreign_books", "foreign", "{}: foreign allocation {}: module's own count={} but {} live handle(s) in the model (clone_fn calls={}, drop_fn calls={})", when, id, c, a.model, b.clone_calls.load(Ordering::SeqCst), b.drop_calls.load(Ordering::SeqCst));
+                vcheck!(b.stale.load(Ordering::SeqCst) == 0, "arc.foreign_books", "foreign", "{}: foreign allocation {}: clone_fn/drop_fn was handed a handle record that had been released before (the instance pointer returned by clone_fn belongs to the new handle)", when, id);
+                if !b.nodes.is_empty() {
+                    let live = b.nodes.iter().filter(|n| n.live.load(Ordering::SeqCst) != 0).count() as i64;
+                    vcheck!(live == a.model, "arc.foreign_books", "foreign", "{}: foreign allocation {}: {} handle record(s) live in the module, {} live handle(s) in the model", when, id, live, a.model);
+                }
             }
         }
         let want = if a.model == 0 { 1 } else { 0 };
@@ -776,6 +841,7 @@ fn exec_free(plan: &Plan, ctx: &mut RunCtx, st: &mut State, threads: usize) -> V
             AllocKind::Foreign(b) => {
                 let c = b.count.load(Ordering::SeqCst);
                 vcheck!(c == 0 && b.underflow.load(Ordering::SeqCst) == 0, "arc.foreign_books", "foreign", "free mode: foreign allocation {} count={} underflow={}", id, c, b.underflow.load(Ordering::SeqCst));
+                vcheck!(b.stale.load(Ordering::SeqCst) == 0 && b.nodes.iter().all(|n| n.live.load(Ordering::SeqCst) == 0), "arc.foreign_books", "foreign", "free mode: foreign allocation {}: handle records released twice or never", id);
             }
         }
         vcheck!(drops == 1, "arc.payload_drop", "payload", "free mode: payload of allocation {} destroyed {} time(s)", id, drops);
